@@ -830,8 +830,71 @@ fn enumerate(_: &Ctx) -> Box<dyn Iterator<Item = Case>> {
     Box::new(it)
 }
 
+/// Constructors that exist without the builder feature (fixed-size tags).
+pub const SIZED_CTORS: [u8; 23] = [0, 1, 2, 5, 6, 7, 8, 9, 11, 15, 21, 22, 26, 27, 28, 29, 30, 31, 32, 34, 35, 36, 36];
+
+/// The same constructor call made inside each of the four transcript servers
+/// ({dev, release} x {default features, no default features}).
+pub fn eval_configs(c: &Case, obs: &mut Obs) -> Result<(), String> {
+    if !SIZED_CTORS.contains(&c.ctor) {
+        return Err("malformed case: not a fixed-size constructor".into());
+    }
+    let built = match mb2_model::panics::catch(|| build(c)) {
+        Some(b) => b,
+        None => return Err(format!("constructor #{} panicked", c.ctor)),
+    };
+    let spec = &built.spec;
+    obs.class(format!("!{}", built.name));
+    obs.nontrivial(fnv(spec) ^ c.ctor as u64);
+    obs.sample(json!({"constructor": built.name, "spec_image": sample_bytes(spec)}));
+    let mut raw = Vec::new();
+    for w in &c.words {
+        raw.extend(w.to_le_bytes());
+    }
+    let answers = match super::c08::ask_line(&format!("K {} {}\n", c.ctor, hex(&raw))) {
+        Ok(a) => a,
+        Err(e) => {
+            obs.inconclusive(format!("transcript servers: {e}"));
+            return Ok(());
+        }
+    };
+    for (cfg, text) in answers {
+        let line = text.lines().next().unwrap_or("");
+        let Some(h) = line.strip_prefix("bytes = '").and_then(|r| r.strip_suffix('\'')) else {
+            return Err(format!("{} in configuration {cfg}: {line}", built.name));
+        };
+        let bytes = unhex(h).unwrap_or_default();
+        if bytes.len() != r8(spec.len()) || le32(&bytes, 4) as usize != spec.len() || bytes[..spec.len()] != spec[..] {
+            return Err(format!("{} built in configuration {cfg}: image {} (size field {}), the specification's encoding of the arguments is {} ({} bytes)", built.name, hex(&bytes[..bytes.len().min(64)]), if bytes.len() >= 8 { le32(&bytes, 4) } else { 0 }, hex(&spec[..spec.len().min(64)]), spec.len()));
+        }
+    }
+    Ok(())
+}
+
+fn strategy_configs(ctx: &Ctx) -> BoxedStrategy<Case> {
+    (strategy(ctx), proptest::sample::select(SIZED_CTORS.to_vec())).prop_map(|(mut c, ctor)| {
+        c.ctor = ctor;
+        c
+    }).boxed()
+}
+
+fn enumerate_configs(ctx: &Ctx) -> Box<dyn Iterator<Item = Case>> {
+    Box::new(enumerate(ctx).filter(|c| SIZED_CTORS.contains(&c.ctor) && c.content.0.len() % 8 == 0))
+}
+
 pub fn subs() -> Vec<Box<dyn Sub>> {
     vec![Box::new(PropSub::<Case> {
+        name: "constructors-all-configs",
+        rule: "the 22 constructors of fixed-size tags (they exist without the builder feature) called with the same argument words inside four separately compiled servers - {dev, release} x {default features, --no-default-features} - and compared with the independent encoder: as_bytes() length, size field, image up to the size. Enumerated: each such constructor with 6 byte-marked argument sets; generated: random / boundary words. Every case is non-trivial; distinct by hash(spec image, constructor)",
+        profiles: Profiles::ReleaseOnly,
+        quick: 2000,
+        thorough: 50000,
+        strategy: strategy_configs,
+        enumerate: Some(enumerate_configs),
+        enum_exhaustive: false,
+        eval: eval_configs,
+    }),
+    Box::new(PropSub::<Case> {
         name: "constructors",
         rule: "38 public constructors of both crates (all tag kinds incl. the three framebuffer variants, both EFI-map constructors, MemoryArea, TagHeader, generic custom tags; all 11 header-tag kinds). Enumerated: every constructor x content length 0..=40 with byte-marked arguments; generated: random / boundary argument words, contents up to 80 bytes. Oracle: type field == specified number == ID constant; size field == exact unpadded byte count; as_bytes()[..size] == the independent little-endian encoder's image (padding inside argument structs masked); accessors return the arguments; for sized tags as_bytes() works and agrees for the tag placed as local, boxed, array/vec element, and struct field behind a u32 / 12 bytes. Non-trivial = size not a multiple of 8 or all argument words non-zero; distinct by hash(spec image, constructor)",
         profiles: Profiles::Both,
